@@ -897,3 +897,4 @@ def run(prog, rep, tier, snap):
     rep.rule("R03.7", "a sorted array is not stored to between its sort and the function's exit", 2)
     rep.call(r03_7, prog, rep)
 READY = True
+LEVEL_TEXT = LEVEL_TEXT + " A sorted array is not stored to between its sort and the function's exit (date lists, rule cache)."
